@@ -532,11 +532,14 @@ func c17Validation(p *core.Program, r *core.Report, resolver *types.Func) {
 	info := p.Pkg("").TypesInfo
 	checkFn, _ := p.Pkg("conf").TypesInfo.Defs[check.Name].(*types.Func)
 	tcheck := p.Pkg("checker").Types.Scope().Lookup("Check")
-	w := &eng.Walker{Info: info, MaxPaths: 4000}
+	w := &eng.Walker{Info: info, MaxPaths: 4000, Inline: inlineUnexported(p, ""), MaxDepth: 2}
 	paths := flattenPaths(w.Func(compile.Body), 20000)
 	bad := ""
 	n := 0
 	for _, atoms := range paths {
+		if !errFlowFeasible(info, atoms) {
+			continue
+		}
 		validated, errReturned := false, false
 		var errVar types.Object
 		for i, a := range atoms {
@@ -712,12 +715,15 @@ func c17Pipeline(p *core.Program, r *core.Report) {
 		r.Unk("R17.4", "expr.Compile/stages", p.Pos(compile.Pos()), "checker.Check, compiler.Compile or the operator-patch entry point not found")
 		return
 	}
-	w := &eng.Walker{Info: info, MaxPaths: 4000}
+	w := &eng.Walker{Info: info, MaxPaths: 4000, Inline: inlineUnexported(p, ""), MaxDepth: 2}
 	paths := flattenPaths(w.Func(compile.Body), 20000)
 	nGen := 0
 	badCheck := map[string]bool{}
 	okCheck := map[string]bool{}
 	for _, atoms := range paths {
+		if !errFlowFeasible(info, atoms) {
+			continue
+		}
 		var pending []string // checks not yet followed by a patch
 		for _, a := range atoms {
 			if a.Kind != "call" || a.Call == nil {
